@@ -60,7 +60,7 @@ def run_replay(jobs, n_proc=8):
     n_proc = max(1, min(n_proc, (len(jobs) + 39) // 40))
     chunks = [jobs[i::n_proc] for i in range(n_proc)]
     procs = []
-    env = dict(os.environ, PYTHONPATH=ROOT, PYTHONHASHSEED="0")
+    env = dict(os.environ, PYTHONPATH=ROOT, PYTHONHASHSEED="0", MPLBACKEND="Agg")
     for ch in chunks:
         p = subprocess.Popen([PY, "-m", "symx.replay"], stdin=subprocess.PIPE, stdout=subprocess.PIPE, stderr=subprocess.PIPE,
                              cwd=ROOT, env=env, text=True)
@@ -98,7 +98,10 @@ def same(a, b, numeric=True, rtol=1e-9, atol=1e-12):
     if isinstance(a, list) and isinstance(b, list):
         return len(a) == len(b) and all(same(x, y, numeric, rtol, atol) for x, y in zip(a, b))
     if isinstance(a, dict) and isinstance(b, dict):
-        return a.keys() == b.keys() and all(same(a[k], b[k], numeric, rtol, atol) for k in a)
+        # keys starting with "_" are world-specific annotations (not compared)
+        ka = {k for k in a if not str(k).startswith("_")}
+        kb = {k for k in b if not str(k).startswith("_")}
+        return ka == kb and all(same(a[k], b[k], numeric, rtol, atol) for k in ka)
     return a == b
 
 
